@@ -27,6 +27,12 @@ def _classes():
                 out[sub.__name__] = sub
             walk(sub)
     walk(V.Version)
+    # a class of the published library whose NAME now stands for another class (an alias): the schemes it serves are
+    # as unrelated to the others as they were
+    for n in _pinned_mro():
+        c = getattr(V, n, None)
+        if n not in out and isinstance(c, type):
+            out[n] = c
     return out
 
 
@@ -100,7 +106,7 @@ def correspondence(ctx):
                 continue
             for d, f in OPS:
                 line = "xcmp %s %s %s" % (a, b, d)
-                pred, rel = answers[line].split(" ")
+                pred, rel = (answers[line].split(" ") + ["-", "-"])[:2]
                 if rel != "unrelated" and _unrelated(pinned, classes, a, b):
                     rel, pred = "unrelated", "-"      # related only in the tree under test
                 for sa, va in samples[a]:
